@@ -768,3 +768,77 @@ Proof.
     rewrite andb_true_r in Hk. destruct (scheme R); [discriminate Hk|reflexivity]. }
   unfold relative_ref in Hrel. rewrite Hsn, Ha, Hh in Hrel. discriminate Hrel.
 Qed.
+
+(* ================================================================ 7. the carve-outs are needed: witnesses *)
+Definition parsed (s : string) (u : uri) : Prop := parse (txt s) = POk u.
+
+(* D7a: "a/.." against "s://h/x/y": the directory "s://h/x/" by resolution, the document "s://h/x/y" after
+   normalization made the reference empty *)
+Lemma commute_cancels_refuted :
+  exists R B, parsed "a/.." R /\ parsed "s://h/x/y" B
+    /\ uri_pct_wf R = true /\ one_kind R = true /\ no_pct_dot R = true /\ wf R = true /\ wf B = true
+    /\ kf_cancels R = true /\ kf_dot_eaten R = false
+    /\ to_text (normalize 63 (snd (add_base false (normalize 63 R) B))) = txt "s://h/x/y"
+    /\ to_text (normalize 63 (snd (add_base false R B))) = txt "s://h/x/".
+Proof. do 2 eexists. split; [vm_compute; reflexivity|]. split; [vm_compute; reflexivity|]. repeat split. Qed.
+
+(* D7e: "./b:c/../../x" against "s:/a/b:c": "s:/x" by resolution, "s:/a/x" after normalization lost a ".." *)
+Lemma commute_dot_eaten_refuted :
+  exists R B, parsed "./b:c/../../x" R /\ parsed "s:/a/b:c" B
+    /\ uri_pct_wf R = true /\ one_kind R = true /\ no_pct_dot R = true /\ wf R = true /\ wf B = true
+    /\ kf_cancels R = false /\ kf_dot_eaten R = true
+    /\ to_text (normalize 63 R) = txt "x"
+    /\ to_text (normalize 63 (snd (add_base false (normalize 63 R) B))) = txt "s:/a/x"
+    /\ to_text (normalize 63 (snd (add_base false R B))) = txt "s:/x".
+Proof. do 2 eexists. split; [vm_compute; reflexivity|]. split; [vm_compute; reflexivity|]. repeat split. Qed.
+
+(* D7d "./b:c/../x" (the stale dot) is not a carve-out: it is covered by the theorem *)
+Lemma stale_dot_covered :
+  exists R, parsed "./b:c/../x" R /\ to_text (normalize 63 R) = txt "./x"
+    /\ uri_pct_wf R = true /\ one_kind R = true /\ no_pct_dot R = true
+    /\ kf_cancels R = false /\ kf_dot_eaten R = false.
+Proof. eexists. split; [vm_compute; reflexivity|]. repeat split. Qed.
+
+(* a percent-encoded dot segment: "/a/%2e%2e/../b" *)
+Lemma commute_pct_dot_refuted :
+  exists R B, parsed "/a/%2e%2e/../b" R /\ parsed "s://h/x" B
+    /\ uri_pct_wf R = true /\ one_kind R = true /\ no_pct_dot R = false /\ relative_ref R = false
+    /\ to_text (normalize 63 (snd (add_base false (normalize 63 R) B))) = txt "s://h/b"
+    /\ to_text (normalize 63 (snd (add_base false R B))) = txt "s://h/a/b".
+Proof. do 2 eexists. split; [vm_compute; reflexivity|]. split; [vm_compute; reflexivity|]. repeat split. Qed.
+
+(* URI_RESOLVE_IDENTICAL_SCHEME_COMPAT: a reference with the base's scheme is resolved as if it had none, but
+   normalized as the absolute URI it is ("t:." is "t:"), and normalization can make the schemes identical *)
+Lemma commute_compat_refuted :
+  (exists R B, parsed "t:." R /\ parsed "t:/x/y" B
+     /\ to_text (normalize 63 (snd (add_base true (normalize 63 R) B))) = txt "t:/x/y"
+     /\ to_text (normalize 63 (snd (add_base true R B))) = txt "t:/x/")
+  /\ (exists R B, parsed "T:a" R /\ parsed "t:/x/y" B
+     /\ to_text (normalize 63 (snd (add_base true (normalize 63 R) B))) = txt "t:/x/a"
+     /\ to_text (normalize 63 (snd (add_base true R B))) = txt "t:a").
+Proof.
+  split; do 2 eexists; (split; [vm_compute; reflexivity|]); (split; [vm_compute; reflexivity|]); split; reflexivity.
+Qed.
+
+(* the two conditions on objects that no parsed URI violates *)
+Lemma commute_base_flag_refuted :       (* a base with a host and the absolute-path flag *)
+  exists R B B0, parsed "../a/.." R /\ parsed "s://h/x" B0 /\ B = set_absolutePath true B0
+    /\ uri_pct_wf R = true /\ one_kind R = true /\ no_pct_dot R = true
+    /\ kf_cancels R = false /\ kf_dot_eaten R = false
+    /\ components (normalize 63 (snd (add_base false (normalize 63 R) B)))
+       <> components (normalize 63 (snd (add_base false R B))).
+Proof.
+  do 3 eexists. split; [vm_compute; reflexivity|]. split; [vm_compute; reflexivity|]. split; [reflexivity|].
+  repeat (split; [reflexivity|]). vm_compute. discriminate.
+Qed.
+
+Lemma commute_two_host_kinds_refuted :  (* a reference with both an IPv4 value and an IPvFuture text *)
+  exists R B, R = mkUri None None (Some [86]) (Some [1; 2; 3; 4]) None (Some [86]) None [] None None false false
+    /\ parsed "s://h/x" B /\ uri_pct_wf R = true /\ one_kind R = false /\ no_pct_dot R = true
+    /\ relative_ref R = false
+    /\ components (normalize 63 (snd (add_base false (normalize 63 R) B)))
+       <> components (normalize 63 (snd (add_base false R B))).
+Proof.
+  do 2 eexists. split; [reflexivity|]. split; [vm_compute; reflexivity|].
+  repeat (split; [reflexivity|]). vm_compute. discriminate.
+Qed.
